@@ -92,7 +92,7 @@ def run_harness(n, seed, tag, corpus=True):
 
 
 C01_ORACLES = ("double ownership", "not at a slot boundary", "advertised capacity", "payload of a held buffer",
-               "header of a held buffer", "panicked", "panic while")
+               "header of a held buffer", "panicked", "panic while", "capacity of its slot", "smaller than requested", "panic in a manager")
 C02_ORACLES = ("free count plus buffers held", "at quiescence", "did not finish")
 
 
@@ -134,3 +134,51 @@ def aba_in_trace(c):
             if any(j < k2 < i and t2 != t for (k2, t2) in succ):
                 return True
     return False
+
+
+# ---------------- manager layer (allocShmBuffer / allocShmBuffers / recycleBuffer over several classes) -----------
+def mop(o):
+    if o["k"] == "alloc":
+        return "MAlloc %s" % core.z(o.get("size", 0))
+    if o["k"] == "multi":
+        return "MAllocMulti %s" % core.z(o.get("size", 0))
+    return "MRecycle %d%%nat" % o.get("idx", 0)
+
+
+def mcase_to_coq(c):
+    cl = core.coq_list(["(%d, %d, %d)" % tuple(x) for x in c["classes"]])
+    ops = core.coq_list([mop(o) for o in c["ops"] or []])
+    res = core.coq_list([core.coq_list([core.z(x) for x in (r or [])]) for r in c["res"] or []])
+    return "{| mc_classes := %s; mc_ops := %s; mc_res := %s |}" % (cl, ops, res)
+
+
+def run_manager_harness(n, seed, tag):
+    outp = os.path.join(core.WORK, "c01m_%s_%d.jsonl" % (tag, os.getpid()))
+    rc, out, secs = core.go_test("C01", "^TestVerif_C01M$", {"VERIF_OUT": outp, "VERIF_N": str(n), "VERIF_SEED": str(seed)},
+                                 timeout=900, files=files())
+    if rc != 0:
+        return None, "manager harness failed (rc=%d): %s" % (rc, out[-2000:])
+    cases = [json.loads(l) for l in open(outp)]
+    os.unlink(outp)
+    return cases, None
+
+
+def eval_manager_cases(cases, tag):
+    bad = []
+    SH = 400
+    for k in range(0, len(cases), SH):
+        chunk = cases[k:k + SH]
+        txt = ["From Coq Require Import List ZArith.", "From Shm Require Import Gen.Consts Model.FreeListMgr Corr.FreeListMgrCorr.",
+               "Import ListNotations.", "Open Scope Z_scope.", "Definition cases : list mcase := [",
+               ";\n".join(mcase_to_coq(c) for c in chunk), "].",
+               "Definition M := Eval vm_compute in mismatches cases.", "Print M."]
+        rc, out, _ = core.coq_eval("cases_freelistmgr_%s_%d_%d" % (tag, os.getpid(), k), "\n".join(txt))
+        if rc != 0:
+            raise RuntimeError("coqc on the generated manager cases failed: " + out[-1500:])
+        m = re.search(r"M\s*=\s*(.*?)\s*:\s*list", out, re.S)
+        if not m:
+            raise RuntimeError("cannot parse the mismatch list: " + out[-500:])
+        body = m.group(1).strip()
+        if body != "[]":
+            bad += [k + int(x) for x in re.findall(r"(\d+)%nat", body)] or [k]
+    return bad
